@@ -7,6 +7,7 @@
 //   * expected verdict: accept  <=>  s^e mod n (recomputed by OpenSSL) == EMSA-PKCS1-v1_5-ENCODE(hash, digest, k)
 //     respectively EMSA-PSS-VERIFY(...) == consistent.
 #include "c11_common.h"
+#include "derint.h"
 #include <algorithm>
 using namespace c11;
 using namespace vf;
@@ -549,7 +550,98 @@ static void prop_trunc(Tape &t, Ctx &c) {
     }
 }
 
+// ---------------------------------------------------------------- 6. DER INTEGER encodings of the public key (modulus, exponent)
+// The subjectPublicKey BIT STRING { RSAPublicKey ::= SEQUENCE { modulus INTEGER, publicExponent INTEGER } } of a pool key is
+// re-encoded with N and/or e as negative integers (-N, N-2^(8k) = "missing leading zero", -e, e-2^(8j)), with redundant sign
+// octets, zero-length contents, long / indefinite length forms and SEQUENCE-level variants, parsed with psRsaParseAsnPubKey,
+// and a genuine signature (made by OpenSSL for the real key) plus one over another digest are verified under the parsed key.
+//   strict DER reading = the pool key                      -> parse must succeed; genuine accepted, other digest refused
+//   else, if MatrixSSL parses the key: a signature may be accepted only if it verifies (s < N', s^e' mod N' == canonical EM)
+//   under the unsigned-contents reading (N', e') of the INTEGERs, the same convention as for the ECDSA wrapper; when that
+//   reading is the pool key again (leading 00 octets, missing leading zero, length forms) the outcome is only counted.
+// A modulus or exponent that is negative as DER reads it and does not verify as unsigned either must never verify anything.
+enum KV { KV_CANON = 0, KV_NEG_N, KV_NEG_E, KV_NEG_BOTH, KV_COUNT };
+static const char *kv_name(int v) { static const char *n[] = { "N,e", "-N,e", "N,-e", "-N,-e" }; return n[v]; }
+static bool ref_rsa_verify(const B &N, const B &e, ox::Hash h, const B &digest, const B &sig) {
+    B n = ox::bn_strip(N); size_t k = n.size();
+    if (k < 32 || ox::bn_is_zero(e) || sig.size() != k || ox::bn_cmp(sig, n) >= 0) return false;
+    B em = canonical_em(k, h, digest); if (em.empty()) return false;
+    return ox::bn_pad(ox::bn_modexp(sig, e, n), k) == em;
+}
+static void prop_keyder(Tape &t, Ctx &c) {
+    using namespace derint;
+    PoolKey *pk = pick_key(t, false);
+    static const ox::Hash hs[] = { ox::H_SHA256, ox::H_SHA1, ox::H_SHA384, ox::H_SHA512 };
+    ox::Hash h = hs[t.below(4)]; B msg = gen_msg(t, 96), digest = ox::hash(h, msg.data(), msg.size());
+    static const uint8_t kvw[] = { KV_CANON, KV_NEG_N, KV_NEG_E, KV_NEG_BOTH, KV_CANON, KV_NEG_N, KV_NEG_E, KV_CANON };
+    int kv = kvw[t.below(sizeof kvw)];
+    unsigned knob = (unsigned) t.below(4); int fn = IF_MIN, fe = IF_MIN, sf = SF_DER; unsigned npad = 1, delta = 1; B trailer;
+    if (knob & 1) { int f = 1 + (int) t.below(IF_COUNT - 1); unsigned which = (unsigned) t.below(3); npad = 1 + (unsigned) t.below(3);
+                    if (which != 1) fn = f; if (which != 0) fe = f; }
+    if (knob & 2) { sf = 1 + (int) t.below(SF_COUNT - 1); delta = 1 + (unsigned) t.below(3); trailer = tape_bytes(t, 1 + (size_t) t.below(4)); }
+    int entry = t.coin() ? E_DECRYPT_ELEM : E_VERIFYSIG;
+    SInt N = pos(pk->n), E = pos(ox::bn_word(pk->e));
+    if (kv == KV_NEG_N || kv == KV_NEG_BOTH) N.neg = true;
+    if (kv == KV_NEG_E || kv == KV_NEG_BOTH) E.neg = true;
+    bool an = true, ae = true; B en = enc_int(N, fn, npad, an), ee = enc_int(E, fe, npad, ae);
+    if (!an) fn = IF_MIN; if (!ae) fe = IF_MIN;        // e = 3, 17, 65537 have no "missing leading zero" form
+    B rsapub = enc_seq(cat(en, ee), sf, trailer, delta);
+    B blob = tlv(0x03, cat(B{ 0 }, rsapub));
+
+    // reference readings of the RSAPublicKey bytes
+    SInt dv[2]; bool disagree = false; bool strict_ok = der_seq_ints_strict(rsapub, 0, dv, 2, disagree);
+    if (disagree) { c.count("ORACLE-DISAGREE"); throw Discard(); }
+    bool key_is_pool = strict_ok && !dv[0].neg && !dv[1].neg && dv[0].mag == ox::bn_strip(pk->n) && dv[1].mag == ox::bn_word(pk->e);
+    bool plain = fn == IF_MIN && fe == IF_MIN && sf == SF_DER;
+    if (plain) VF_CHECK(strict_ok && dv[0].neg == N.neg && dv[1].neg == E.neg && key_is_pool == (kv == KV_CANON), "harness", "strict reader does not return the encoded key integers class=%s", kv_name(kv));
+    if (plain && kv == KV_CANON) VF_CHECK(blob == pk->pubder, "harness", "own RSAPublicKey encoder differs from i2d_RSAPublicKey");
+    B uc[2]; bool lax_parsed = ber_seq_ints(rsapub, 0, uc, 2);
+    bool has_negative = lax_parsed && (contents_negative(uc[0]) || contents_negative(uc[1]));
+    bool lax_is_pool = lax_parsed && ox::bn_strip(uc[0]) == ox::bn_strip(pk->n) && ox::bn_strip(uc[1]) == ox::bn_word(pk->e);
+
+    c.count(std::string("keyder:value:") + kv_name(kv)); c.count(std::string("keyder:N-form:") + intform_name(fn)); c.count(std::string("keyder:e-form:") + intform_name(fe));
+    c.count(std::string("keyder:seq:") + seqform_name(sf)); c.count(has_negative ? "keyder:blob-has-negative-INTEGER" : "keyder:blob-all-INTEGERs-nonnegative");
+    c.nontrivial(fmt("kd:%u:%lu:%s:%d:%d:%d:%d:%u", pk->bits, pk->e, kv_name(kv), fn, fe, sf, entry, (fn == IF_SIGNPAD || fe == IF_SIGNPAD) ? npad : 0));
+    std::string desc = fmt("key=%s class=%s N-form=%s e-form=%s seq=%s", pk->name.c_str(), kv_name(kv), intform_name(fn), intform_name(fe), seqform_name(sf));
+
+    Exact d(blob); psPubKey_t tmp; memset(&tmp, 0, sizeof tmp); unsigned char kh[SHA1_HASH_SIZE];
+    VF_CHECK(psInitPubKey(NULL, &tmp, PS_RSA) >= 0, "harness", "psInitPubKey");
+    const unsigned char *p = d.p; int32_t rc = psRsaParseAsnPubKey(NULL, &p, (psSize_t) d.n, &tmp.key.rsa, kh);
+    c.sample(fmt("keyder %s strict-is-pool=%d unsigned-is-pool=%d parse_rc=%d", desc.c_str(), (int) key_is_pool, (int) lax_is_pool, rc));
+    if (rc < 0) {
+        psRsaClearKey(&tmp.key.rsa);
+        VF_CHECK(!key_is_pool, "rsa-valid-key-rejected", "psRsaParseAsnPubKey refused the canonical DER public key rc=%d %s", rc, desc.c_str());
+        c.count(lax_is_pool ? "keyder:lax-encoding-of-key-refused" : "keyder:bad-key-refused-at-parse");
+        return;
+    }
+    tmp.keysize = psRsaSize(&tmp.key.rsa);
+    B good = ox::rsa_sign_pkcs1(pk->ok, h, digest), other_digest = digest; other_digest[0] ^= 0x01;
+    VF_CHECK(good.size() == pk->k, "harness", "openssl sign");
+    PoolKey shadow; shadow.mk = tmp;                       // mx_verify_pkcs1 only looks at ->mk
+    for (int which = 0; which < 2; which++) {
+        const B &dg = which ? other_digest : digest;
+        int got = mx_verify_pkcs1(&shadow, entry, h, msg, dg, good);
+        bool ref = lax_parsed && ref_rsa_verify(uc[0], uc[1], h, dg, good);
+        if (key_is_pool) {
+            if (got != (which == 0)) { psRsaClearKey(&tmp.key.rsa);
+                VF_FAIL(which ? "rsa-invalid-accepted" : "rsa-valid-rejected", "%s under the canonically encoded key: got=%d for the %s digest %s", entry_name(entry), got, which ? "wrong" : "signed", desc.c_str()); }
+            continue;
+        }
+        if (got && !ref) {
+            psRsaClearKey(&tmp.key.rsa);
+            VF_FAIL(has_negative ? "rsa-negative-key-integer-accepted" : "rsa-invalid-accepted-noncanonical-key",
+                    "%s accepted a signature under a public key whose INTEGERs, read as DER or as unsigned octets, do not verify it (%s digest) %s RSAPublicKey=%s signature=%s",
+                    entry_name(entry), which ? "wrong" : "signed", desc.c_str(), hxc(rsapub).c_str(), hx(good, 520).c_str());
+        }
+        if (which == 0) c.count(lax_is_pool ? (got ? "keyder:lax-encoding-of-key-verifies" : "keyder:lax-encoding-of-key-parsed-but-does-not-verify")
+                                            : "keyder:bad-key-parsed-verifies-nothing");
+    }
+    if (key_is_pool) c.count("keyder:canonical-key-ok");
+    psRsaClearKey(&tmp.key.rsa);
+}
+
 // ---------------------------------------------------------------- dispatcher
+// prop_keyder took [90,94) from prop_crypt; all other lower bounds are unchanged so that the regress tapes keep their meaning
 static void prop(Tape &t, Ctx &c) {
     uint64_t seed = t.u32(); ent_seed(seed);
     unsigned m = (unsigned) t.below(100);
@@ -558,7 +650,8 @@ static void prop(Tape &t, Ctx &c) {
     else if (m < 72) prop_diff_verify(t, c);
     else if (m < 77) prop_diff_sign(t, c);
     else if (m < 85) prop_pss_diff(t, c);
-    else if (m < 94) prop_crypt(t, c);
+    else if (m < 90) prop_crypt(t, c);
+    else if (m < 94) prop_keyder(t, c);
     else prop_trunc(t, c);
 }
 VF_TARGET("C11.rsa", prop, 512, 120)
